@@ -182,3 +182,46 @@ Definition respond_direct (e : env) (icon_data : str -> list N) (r : routed) : o
   | SpartanTooLarge => Some (status_line true (lit "4") (lit "Content length too large"))
   | ToHandler _ _ | Crash => None
   end.
+
+(* ---------- side conditions as boolean predicates ---------- *)
+Definition is_some {A} (x : option A) : bool := match x with Some _ => true | None => false end.
+(* the string is the image of some byte string under surrogateescape (every decoded request is) *)
+Definition encodable (s : str) : bool := is_some (encode_se s).
+(* a server-chosen single-line text: str.encode() accepts it and it has no CR or LF *)
+Definition line_ok (s : str) : bool := is_some (encode_strict s) && negb (mem_N 13 s) && negb (mem_N 10 s).
+
+Definition env_ok (e : env) : bool :=
+  is_some (encode_strict (e_admin e)) &&
+  match e_lastmod e with Some t => line_ok t | None => true end.
+
+(* what the theorems ask of an outcome: message strings are arbitrary (attacker-chosen) but
+   decoded from bytes; MIME types are server-chosen single lines; the Gopher+ size attribute,
+   when present, is the number of bytes the handler writes (C04's subject) *)
+Definition outcome_ok (e : env) (p : proto) (o : outcome) : bool :=
+  match o with
+  | ONotFound m => encodable m
+  | OIOError se t => encodable (ioerror_msg se t) && encodable (ioerror_msg_gopher se)
+  | ODoc m size body =>
+      match p with
+      | PHttp | PHttps => line_ok (http_adjust m)
+      | PWap => line_ok (wap_adjust m) && is_some (wap_body m body)
+      | PGopherPlus | PSGopherPlus | PUrlGopherPlus =>
+          match e_info e, size with
+          | None, Some n => n =? N.of_nat (List.length body)
+          | _, _ => true
+          end
+      | _ => true
+      end
+  | ODir m _ =>
+      match p with
+      | PHttp | PHttps => line_ok (http_adjust m)
+      | PWap => line_ok (wap_adjust m)
+      | _ => true
+      end
+  end.
+
+Definition is_error (o : outcome) : bool :=
+  match o with ONotFound _ | OIOError _ _ => true | _ => false end.
+(* the plain Gopher error line has room for a message without TAB, CR, LF only *)
+Definition gopher_msg_ok (m : str) : bool :=
+  encodable m && negb (mem_N 9 m) && negb (mem_N 13 m) && negb (mem_N 10 m).
